@@ -28,7 +28,7 @@ import sys
 import tempfile
 import time
 
-REPO = "/repo"
+REPO = os.environ.get("VERIF_REPO", "/repo")  # VERIF_REPO: development aid (check a copy)
 HERE = os.path.dirname(os.path.abspath(__file__))
 TYPES = {"u8": 8, "u16": 16, "u32": 32, "u64": 64, "usize": 64, "u128": 128, "i32": 32, "bool": 0}
 PRIMS = ["u8", "u16", "u32", "u64", "usize", "u128"]
@@ -609,8 +609,15 @@ class Native:
     def build(self):
         env = dict(os.environ, CARGO_NET_OFFLINE="true")
         env.pop("RUSTFLAGS", None)
+        crate = os.path.join(HERE, "native")
+        if REPO != "/repo":  # same crate with the repository path substituted
+            alt = os.path.join(self.build_dir, "alt-native")
+            os.makedirs(os.path.join(alt, "src"), exist_ok=True)
+            for rel in ("Cargo.toml", os.path.join("src", "main.rs")):
+                open(os.path.join(alt, rel), "w").write(open(os.path.join(crate, rel)).read().replace('"/repo', '"' + REPO))
+            crate = alt
         p = subprocess.run(["cargo", "build", "--release", "--offline", "--target-dir", self.build_dir],
-                           cwd=os.path.join(HERE, "native"), env=env, capture_output=True, text=True, timeout=1800)
+                           cwd=crate, env=env, capture_output=True, text=True, timeout=1800)
         if p.returncode != 0:
             raise Unsupported("native primitive runner failed to build: " + p.stderr[-1500:])
         self.bin = os.path.join(self.build_dir, "release", "primnative")
